@@ -20,7 +20,11 @@ Definition chunks (size : N) (s : bytes) : list (bytes * bool) := chunks_fuel (l
 
 (* fragment(data, max_pdu_length, normal, last); max_pdu_length >= 7 is the domain of C06.
    (range() with step 0 raises ValueError, a negative step gives an empty range.) *)
-Definition fragment (data : bytes) (m normal last : N) : result (list (bytes * N)) :=
+(* a maximum length of 0 means "no limit": the library then fragments at 65536 *)
+Definition eff_max (m : N) : N := if m =? 0 then 65536 else m.
+
+Definition fragment (data : bytes) (m0 normal last : N) : result (list (bytes * N)) :=
+  let m := eff_max m0 in
   if m =? 6 then (match data with [] => Ok (@nil (bytes * N)) | _ => Err ValueError end)
   else if m <? 6 then Ok []
   else Ok (map (fun cb : bytes * bool => (fst cb, if snd cb then normal else last)) (chunks (m - 6) data)).
@@ -39,7 +43,7 @@ Fixpoint frag_file_fuel (fuel : nat) (size : N) (s : bytes) : list (bytes * bool
   end.
 Definition fragment_file (contents : bytes) (m normal last : N) : list (bytes * N) :=
   map (fun cb : bytes * bool => (fst cb, if snd cb then normal else last))
-      (frag_file_fuel (S (length contents)) (m - 6) contents).
+      (frag_file_fuel (S (length contents)) (eff_max m - 6) contents).
 
 Record frag := { f_ctx : N; f_ctl : N; f_payload : bytes }.
 
